@@ -60,8 +60,12 @@ def run(ctx, chk):
             chk.fail('C18.2', key, 'set_control can diverge (%s: %s)' % (r.status, r.detail), file, line)
             continue
         writes = [e for e in effs if e[1] == 'stdout']
+        from .. import bvproof as _bp
+        bit7 = O(1, 'ne', O(8, 'and', val, C(8, 0x80)), C(8, 0))
+        b7set = bool(av.m1 & 0x80) or r.state.env.const_of(bit7) == 1 or _bp.equal_under(bit7, C(1, 1), r.state.env, 1) is True
+        b7clr = bool(av.m0 & 0x80) or r.state.env.const_of(bit7) == 0 or _bp.equal_under(bit7, C(1, 0), r.state.env, 1) is True
         if writes:
-            okb = bool(av.m1 & 0x80)
+            okb = b7set
             payload_ok = False
             for e in writes:
                 snap = e[6]
@@ -84,7 +88,7 @@ def run(ctx, chk):
             else:
                 chk.ok('C18.2', key, sample={'path': 'bit7=1', 'effects': kinds})
         else:
-            if av.m0 & 0x80:
+            if b7clr:
                 chk.ok('C18.2', key, sample={'path': 'bit7=0', 'effects': kinds})
             else:
                 chk.fail('C18.2', key, 'no stdout write on a path where bit 7 of the value may be set', file, line)
